@@ -332,7 +332,15 @@ func (cs *clusterSim) writeOnce(p *Node, db string, t *Tape) {
 			r.Failf(cs.oracle("txid-step"), "%s: position of %s went %s -> %s in one transaction", p.Name, db, pos, np)
 			return
 		}
-		cs.ims.Put(db, np, img)
+		if uint64(np.PostApplyChecksum) == img.Checksum() {
+			cs.ims.Put(db, np, img)
+		} else {
+			// the position read when the transaction was finalised is not this
+			// transaction's (the node was demoted in between and has already
+			// applied somebody else's): the image registered under its own
+			// checksum when it was built stands, nothing is overwritten
+			r.Count("writer.pos-not-own")
+		}
 		cs.mu.Lock()
 		cs.latest[db] = np
 		cs.commits++
